@@ -643,3 +643,577 @@ def gen_neglike_text():
 
 def gen_all(ctx):
     ctx.gen('NegLike', gen_neglike_text())
+
+
+# ============================================================================ stream `estimate`
+# The algorithms that "support bounds" -- the list proved in T07d_algorithms_forwarding_bounds about the tables
+# generated from optimization.py.  The oracle uses this pinned list (the specification); if a change of the source makes
+# the generated table differ, the theorem breaks and the failing-input search below runs with this expectation.
+SUPPORTS_BOUNDS = {'automatic', 'scipy', 'simple_bounds', 'simple_bounds_newton', 'simple_bounds_BFGS'}
+ALL_ALGORITHMS = ['automatic', 'scipy', 'LS-newton', 'TR-newton', 'LS-BFGS', 'TR-BFGS', 'simple_bounds',
+                  'simple_bounds_newton', 'simple_bounds_BFGS']
+
+HOW = ('build the model of the witness (lib/impl/c07_estimate.py: build) on the witness data, call BIOGEME.estimate(); '
+       './check C07 --replay <this file>')
+
+
+def h2f(h):
+    return None if h is None else float.fromhex(h)
+
+
+def f2h(x):
+    return None if x is None else float(x).hex()
+
+
+def q4(x):
+    """nearest multiple of 1/4 (dyadic)"""
+    return round(x * 4) / 4.0
+
+
+def algorithm_names():
+    """'automatic' + the keys of optimization.algorithms as they are in the source now (all of them are exercised)"""
+    try:
+        algos, _ = extract_optimization()
+        names = ['automatic'] + [a for a, _ in algos]
+    except Untranslatable:
+        names = list(ALL_ALGORITHMS)
+    for a in ALL_ALGORITHMS:
+        if a not in names:
+            names.append(a)
+    return names
+
+
+# ---- independent evaluation of the logit likelihood (numpy, float64) -- used to build problems with a finite maximum
+#      and as a second reference for the reported value / derivatives
+def ref_eval(problem, values, free_names):
+    import numpy as np
+    alts = sorted(problem['alts'], key=int)
+    n = len(problem['choice'])
+    cols = {c: np.array([float.fromhex(v) for v in vals]) for c, vals in problem['cols'].items()}
+    K = len(free_names)
+    idx = {nm: k for k, nm in enumerate(free_names)}
+    V = np.zeros((n, len(alts)))
+    X = np.zeros((n, len(alts), K))
+    for j, a in enumerate(alts):
+        for prm, col in problem['alts'][a]:
+            x = np.ones(n) if col is None else cols[col]
+            V[:, j] += values[prm] * x
+            if prm in idx:
+                X[:, j, idx[prm]] += x
+    ch = np.array([alts.index(str(c)) for c in problem['choice']])
+    m = V.max(axis=1, keepdims=True)
+    lse = m[:, 0] + np.log(np.exp(V - m).sum(axis=1))
+    P = np.exp(V - lse[:, None])
+    ll_n = V[np.arange(n), ch] - lse
+    xbar = np.einsum('nj,njk->nk', P, X)
+    g_n = X[np.arange(n), ch, :] - xbar
+    H = -(np.einsum('nj,njk,njl->kl', P, X, X) - xbar.T @ xbar)
+    B = g_n.T @ g_n
+    scale = float(np.abs(V).sum() + np.abs(lse).sum()) + 1.0
+    xmax = float(np.abs(X).max()) if X.size else 1.0
+    return {'f': float(ll_n.sum()), 'g': g_n.sum(axis=0), 'H': H, 'B': B, 'scale_f': scale,
+            'scale_d': n * (1.0 + xmax) ** 2}
+
+
+def ref_mle(problem, fixed_values, free_names):
+    """Newton iteration from 0 with step halving; None when the maximum is not comfortably finite"""
+    import numpy as np
+    x = np.zeros(len(free_names))
+
+    def ev(x):
+        vals = dict(fixed_values)
+        vals.update({nm: float(v) for nm, v in zip(free_names, x)})
+        return ref_eval(problem, vals, free_names)
+
+    cur = ev(x)
+    for _ in range(60):
+        if np.abs(cur['g']).max() < 1e-10:
+            break
+        try:
+            step = np.linalg.solve(-cur['H'], cur['g'])
+        except np.linalg.LinAlgError:
+            return None
+        t = 1.0
+        while t > 1e-6:
+            nxt = ev(x + t * step)
+            if nxt['f'] >= cur['f']:
+                break
+            t /= 2
+        else:
+            return None
+        x = x + t * step
+        cur = nxt
+        if np.abs(x).max() > 6:
+            return None
+    else:
+        return None
+    ev_min = float(np.linalg.eigvalsh(-cur['H']).min())
+    if ev_min < 0.4 or np.abs(x).max() > 4:
+        return None
+    return [float(v) for v in x], cur['f']
+
+
+def gen_problem(rng):
+    """binary / three-alternative logit, utilities linear in 1-3 free parameters (+ optionally one fixed parameter):
+    the log likelihood is concave.  Data: multiples of 1/4 in [-2, 2]."""
+    import numpy as np
+    for _attempt in range(200):
+        kind = 'binary' if rng.random() < 0.55 else 'mnl'
+        K = rng.choice([1, 2, 2, 3, 3])
+        n = rng.randint(30, 80)
+        with_fixed = rng.random() < 0.5
+        cols, alts = {}, {}
+
+        def col(name):
+            cols[name] = [rng.randint(-8, 8) / 4.0 for _ in range(n)]
+            return name
+
+        free = []
+        if kind == 'binary':
+            terms = []
+            with_asc = K >= 2 and rng.random() < 0.6
+            for k in range(K):
+                nm = f'b{k + 1}' if not (with_asc and k == 0) else 'asc'
+                free.append(nm)
+                terms.append([nm, None if nm == 'asc' else col(f'x{k + 1}')])
+            if with_fixed:
+                terms.append(['bfix', col('xf')])
+            alts = {'1': [], '2': terms}
+        else:
+            with_asc = K == 3 or (K == 2 and rng.random() < 0.4)
+            gen = K - (1 if with_asc else 0)
+            free = [f'b{k + 1}' for k in range(gen)] + (['asc2'] if with_asc else [])
+            for a in ('1', '2', '3'):
+                terms = [[f'b{k + 1}', col(f'x{k + 1}_{a}')] for k in range(gen)]
+                if with_asc and a == '2':
+                    terms.append(['asc2', None])
+                if with_fixed and a == '3':
+                    terms.append(['bfix', col('xf')])
+                alts[a] = terms
+        fixed_values = {'bfix': rng.choice([0.25, -0.5, 0.125])} if with_fixed else {}
+        true = {nm: rng.randint(-6, 6) / 4.0 for nm in free}
+        true.update(fixed_values)
+        problem = {'cols': {c: [f2h(v) for v in vals] for c, vals in cols.items()}, 'alts': alts, 'choice': [1] * n, 'kind': kind}
+        # simulate the choices from the true model
+        choice = []
+        keys = sorted(alts, key=int)
+        for i in range(n):
+            v = [sum(true[p] * (1.0 if c is None else cols[c][i]) for p, c in alts[a]) for a in keys]
+            mx = max(v)
+            e = [math.exp(t - mx) for t in v]
+            u = rng.random() * sum(e)
+            acc = 0.0
+            pick = keys[-1]
+            for a, w in zip(keys, e):
+                acc += w
+                if u < acc:
+                    pick = a
+                    break
+            choice.append(int(pick))
+        if min(choice.count(int(a)) for a in keys) < 4:
+            continue
+        problem['choice'] = choice
+        mle = ref_mle(problem, fixed_values, free)
+        if mle is None:
+            continue
+        problem['free'] = free
+        problem['fixed'] = {k: f2h(v) for k, v in fixed_values.items()}
+        problem['ref_mle'] = [f2h(v) for v in mle[0]]
+        problem['ref_max'] = f2h(mle[1])
+        return problem
+    raise RuntimeError('C07: could not generate a problem with a finite maximum')
+
+
+BOUND_KINDS = ['none', 'inactive', 'active', 'one-sided']
+START_KINDS = ['zero', 'random', 'near', 'far', 'on-bound']
+
+
+def gen_bounds(rng, problem, kind):
+    mle = [h2f(v) for v in problem['ref_mle']]
+    out = []
+    j_act = rng.randrange(len(mle))
+    for k, m in enumerate(mle):
+        lb = ub = None
+        if kind == 'inactive':
+            lb = q4(m - rng.choice([1, 1.5, 2, 3])) if rng.random() < 0.8 else None
+            ub = q4(m + rng.choice([1, 1.5, 2, 3])) if rng.random() < 0.8 or lb is None else None
+        elif kind == 'active':
+            if k == j_act:
+                if rng.random() < 0.5:
+                    ub = q4(m - rng.choice([0.375, 0.5, 0.75, 1.0]))
+                    lb = ub - rng.choice([1, 2, 4]) if rng.random() < 0.5 else None
+                else:
+                    lb = q4(m + rng.choice([0.375, 0.5, 0.75, 1.0]))
+                    ub = lb + rng.choice([1, 2, 4]) if rng.random() < 0.5 else None
+            elif rng.random() < 0.5:
+                lb, ub = q4(m - 2), q4(m + 2)
+        elif kind == 'one-sided':
+            s = rng.choice([-0.5, 1.5, 2.0])
+            if rng.random() < 0.5:
+                ub = q4(m + s)
+            else:
+                lb = q4(m - s)
+        out.append((lb, ub))
+    return out
+
+
+def gen_start(rng, problem, bounds, kind):
+    mle = [h2f(v) for v in problem['ref_mle']]
+    xs = []
+    for (lb, ub), m in zip(bounds, mle):
+        if kind == 'zero':
+            x = 0.0
+        elif kind == 'random':
+            x = rng.randint(-8, 8) / 4.0
+        elif kind == 'near':
+            x = q4(m)
+        elif kind == 'far':
+            x = rng.choice([-3.0, 3.0, -2.5, 2.5])
+        else:  # on-bound
+            x = lb if lb is not None else ub if ub is not None else 0.0
+        if lb is not None and x < lb:
+            x = lb
+        if ub is not None and x > ub:
+            x = ub
+        xs.append(x)
+    return xs
+
+
+def make_run(problem_id, problem, bounds, start, algorithm, share, iter_start=None, settings=None, tags=None):
+    params = []
+    for nm, (lb, ub), x in zip(problem['free'], bounds, start):
+        params.append({'name': nm, 'init': f2h(x), 'lb': f2h(lb), 'ub': f2h(ub), 'fixed': False})
+    for nm, v in problem['fixed'].items():
+        params.append({'name': nm, 'init': v, 'lb': None, 'ub': None, 'fixed': True})
+    return {'pid': problem_id, 'params': params, 'algorithm': algorithm, 'share': share, 'iter_start': iter_start,
+            'settings': settings, 'tags': tags or {}}
+
+
+def gen_runs(rng, problems, algorithms, n_starts, bound_kinds):
+    runs = []
+    for pid, p in problems.items():
+        for bk in bound_kinds:
+            bounds = gen_bounds(rng, p, bk)
+            kinds = rng.sample(START_KINDS, min(n_starts, len(START_KINDS)))
+            for sk in kinds:
+                start = gen_start(rng, p, bounds, sk)
+                share = rng.random() < 0.5
+                it = None
+                if rng.random() < 0.12:
+                    # restart file: the Beta objects say `start`, the file says something else (feasible as well)
+                    other = gen_start(rng, p, bounds, rng.choice(['random', 'near']))
+                    it = {nm: f2h(x) for nm, x in zip(p['free'], other)}
+                for a in algorithms:
+                    runs.append(make_run(pid, p, bounds, start, a, share, it, None,
+                                         {'bounds_kind': bk, 'start_kind': sk, 'group': f'{pid}/{bk}'}))
+    return runs
+
+
+def run_impl(ctx, problems, runs, spy=False):
+    if not runs:
+        return []
+    order = list(range(len(runs)))
+    random_order = ctx.sub_rng('order')
+    random_order.shuffle(order)
+    shuffled = [runs[i] for i in order]
+    chunk = max(1, -(-len(shuffled) // 16))
+    needed = {r['pid'] for r in runs}
+    res = ctx.impl_cases('c07_estimate.py', shuffled, extra={'problems': {k: v for k, v in problems.items() if k in needed}, 'spy': spy},
+                         chunk=min(chunk, 400), timeout=1500)
+    out = [None] * len(runs)
+    for i, r in zip(order, res):
+        out[i] = r
+    return out
+
+
+def fr(h):
+    return Fraction(float.fromhex(h))
+
+
+def close(a, b, tol):
+    return abs(a - b) <= tol
+
+
+class Finding:
+    def __init__(self, clause, what, expected, observed):
+        self.clause, self.what, self.expected, self.observed = clause, what, expected, observed
+
+
+def check_run(problem, run, r):
+    """the property oracles that concern ONE estimation; returns (findings, info)"""
+    out = []
+    info = {'converged': False, 'moved': False}
+    alg = run['algorithm']
+    free = [p for p in run['params'] if not p['fixed']]
+    if not r.get('ok'):
+        if 'crash' in r:
+            out.append(Finding('exception', 'the estimation process died', 'estimation results', r))
+        else:
+            out.append(Finding('exception', f'estimate() raised {r.get("error")}', 'estimation results', {'error': r.get('error'), 'trace': r.get('trace')}))
+        return out, info
+    names = r['betaNames']
+    x = [h2f(v) for v in r['betaValues']]
+    if sorted(names) != sorted(p['name'] for p in free) or len(x) != len(names):
+        out.append(Finding('names', 'the estimated parameters are not the free parameters of the model',
+                           sorted(p['name'] for p in free), {'betaNames': names, 'n_values': len(x)}))
+        return out, info
+    spec = {p['name']: p for p in run['params']}
+    lbs = [h2f(spec[n]['lb']) for n in names]
+    ubs = [h2f(spec[n]['ub']) for n in names]
+    L, L0 = h2f(r['logLike']), h2f(r['initLogLike'])
+    g = [h2f(v) for v in r['g']]
+    info['converged'] = bool(r['convergence'])
+    info['L'] = L
+    info['x'] = x
+    # --- the start the estimation must have used
+    start = {p['name']: h2f(p['init']) for p in run['params']}
+    if run.get('iter_start'):
+        start.update({k: h2f(v) for k, v in run['iter_start'].items()})
+    x0 = [start[n] for n in names]
+    info['moved'] = any(a != b for a, b in zip(x, x0))
+    if not all(math.isfinite(v) for v in x + [L, L0] + g):
+        out.append(Finding('finite', 'non-finite estimates / likelihood / gradient on a concave problem with a finite maximum',
+                           'finite numbers', {'x': x, 'logLike': L, 'initLogLike': L0, 'g': g}))
+        return out, info
+    # --- (1) bounds
+    if alg in SUPPORTS_BOUNDS:
+        bad = [(n, v, lb, ub) for n, v, lb, ub in zip(names, x, lbs, ubs)
+               if (lb is not None and Fraction(v) < Fraction(lb)) or (ub is not None and Fraction(v) > Fraction(ub))]
+        if bad:
+            out.append(Finding('bounds', f'algorithm {alg} supports bounds but the estimate of {bad[0][0]} = {bad[0][1]!r} lies outside '
+                               f'[{bad[0][2]}, {bad[0][3]}]', 'lb <= estimate <= ub', [list(b) for b in bad]))
+    rb = [[h2f(a), h2f(b)] for a, b in r['res_bounds']]
+    if rb != [[a, b] for a, b in zip(lbs, ubs)]:
+        out.append(Finding('reported-bounds', 'the bounds stored with the results are not the declared ones',
+                           [[a, b] for a, b in zip(lbs, ubs)], rb))
+    if [h2f(v) for v in r['res_values']] != x or {k: h2f(v) for k, v in r['get_beta_values'].items()} != dict(zip(names, x)):
+        out.append(Finding('reported-values', 'results.data.betas / get_beta_values() differ from results.data.betaValues',
+                           dict(zip(names, x)), {'betas': r['res_values'], 'get_beta_values': r['get_beta_values']}))
+    # --- (2) final >= initial
+    if L < L0 - 1e-9 * max(1.0, abs(L0)):
+        out.append(Finding('final-ge-init', f'final log likelihood {L!r} is lower than the initial one {L0!r}',
+                           'logLike >= initLogLike', {'logLike': L, 'initLogLike': L0, 'start': x0, 'estimates': x}))
+    # --- (3) reported = recomputed (fresh BIOGEME object, same engine)
+    if r.get('fresh_names') != names:
+        out.append(Finding('names', 'a fresh object orders the free parameters differently', names, r.get('fresh_names')))
+        return out, info
+    xmax = max([1.0] + [abs(h2f(v)) for vals in problem['cols'].values() for v in vals])
+    nrows = len(problem['choice'])
+    sc_f = max(1.0, abs(L))
+    sc_d = nrows * (1.0 + xmax) ** 2
+    T = 1e-12
+
+    def cmp_vec(a, b, tol):
+        return len(a) == len(b) and all(close(u, v, tol) for u, v in zip(a, b))
+
+    def cmp_mat(a, b, tol):
+        return len(a) == len(b) and all(cmp_vec(u, v, tol) for u, v in zip(a, b))
+
+    H = [[h2f(v) for v in row] for row in r['H']]
+    B = [[h2f(v) for v in row] for row in r['bhhh']]
+    if 're_f' not in r:
+        out.append(Finding('recompute', 'the likelihood cannot be recomputed at the returned estimates', 'a value', r.get('error')))
+        return out, info
+    if not close(L, h2f(r['re_f']), T * sc_f) or not close(L, h2f(r['re_f2']), T * sc_f):
+        out.append(Finding('loglike-recomputed', 'results.data.logLike is not the likelihood at the returned estimates',
+                           {'calculate_likelihood(x*)': h2f(r['re_f']), 'calculate_likelihood_and_derivatives(x*)': h2f(r['re_f2'])}, L))
+    if not close(L0, h2f(r['re_init']), T * max(1.0, abs(L0))):
+        out.append(Finding('init-recomputed', 'results.data.initLogLike is not the likelihood at the starting values',
+                           {'calculate_likelihood(x0)': h2f(r['re_init']), 'x0': x0}, L0))
+    if not cmp_vec(g, [h2f(v) for v in r['re_g']], T * sc_d):
+        out.append(Finding('gradient-recomputed', 'results.data.g is not the gradient at the returned estimates',
+                           [h2f(v) for v in r['re_g']], g))
+    if not cmp_mat(H, [[h2f(v) for v in row] for row in r['re_H']], T * sc_d):
+        out.append(Finding('hessian-recomputed', 'results.data.H is not the Hessian at the returned estimates',
+                           [[h2f(v) for v in row] for row in r['re_H']], H))
+    if not cmp_mat(B, [[h2f(v) for v in row] for row in r['re_bhhh']], T * sc_d):
+        out.append(Finding('bhhh-recomputed', 'results.data.bhhh is not the BHHH matrix at the returned estimates',
+                           [[h2f(v) for v in row] for row in r['re_bhhh']], B))
+    # --- (3') the STATED likelihood: independent numpy evaluation of sum_n log P_n(choice_n) and its derivatives
+    vals = {p['name']: h2f(p['init']) for p in run['params'] if p['fixed']}
+    vals.update(dict(zip(names, x)))
+    ref = ref_eval(problem, vals, names)
+    T2 = 1e-9
+    if not close(L, ref['f'], T2 * ref['scale_f']):
+        out.append(Finding('loglike-stated', 'results.data.logLike is not the log likelihood of the stated model at the estimates',
+                           ref['f'], L))
+    if not cmp_vec(g, [float(v) for v in ref['g']], T2 * ref['scale_d']):
+        out.append(Finding('gradient-stated', 'results.data.g is not the gradient of the stated log likelihood', [float(v) for v in ref['g']], g))
+    if not cmp_mat(H, [[float(v) for v in row] for row in ref['H']], T2 * ref['scale_d']):
+        out.append(Finding('hessian-stated', 'results.data.H is not the Hessian of the stated log likelihood',
+                           [[float(v) for v in row] for row in ref['H']], H))
+    if not cmp_mat(B, [[float(v) for v in row] for row in ref['B']], T2 * ref['scale_d']):
+        out.append(Finding('bhhh-stated', 'results.data.bhhh is not the BHHH matrix of the stated log likelihood',
+                           [[float(v) for v in row] for row in ref['B']], B))
+    vals0 = dict(vals)
+    vals0.update(dict(zip(names, x0)))
+    ref0 = ref_eval(problem, vals0, names)
+    if not close(L0, ref0['f'], T2 * ref0['scale_f']):
+        out.append(Finding('init-stated', 'results.data.initLogLike is not the stated log likelihood at the starting values', ref0['f'], L0))
+    # --- (4) stationarity when convergence is reported: projected gradient of the maximisation problem
+    if r['convergence']:
+        use_b = alg in SUPPORTS_BOUNDS
+        worst = 0.0
+        pgs = []
+        for xi, gi, lb, ub in zip(x, g, lbs, ubs):
+            y = xi + gi
+            if use_b and lb is not None:
+                y = max(y, lb)
+            if use_b and ub is not None:
+                y = min(y, ub)
+            pg = y - xi
+            pgs.append(pg)
+            worst = max(worst, abs(pg) * max(abs(xi), 1.0) / max(abs(L), 1.0))
+        info['relpg'] = worst
+        if worst > 1e-3:
+            out.append(Finding('stationarity', f'convergence is reported by {alg} but the relative projected gradient is {worst:.3g} > 1e-3',
+                               'gradient ~ 0 in every direction not blocked by an active bound',
+                               {'estimates': x, 'g': g, 'projected_gradient': pgs, 'bounds': list(zip(lbs, ubs)), 'cause': r.get('cause')}))
+    # --- (5) write-back
+    before, after = r['leaves_before'], r['leaves_after']
+    est = dict(zip(names, x))
+    if len(before) != len(after):
+        out.append(Finding('writeback', 'the Beta leaves of the formula changed', len(before), len(after)))
+    else:
+        for b0, b1 in zip(before, after):
+            if (b0['name'], b0['lb'], b0['ub'], b0['status']) != (b1['name'], b1['lb'], b1['ub'], b1['status']):
+                out.append(Finding('writeback', f'name / bounds / status of Beta {b0["name"]} changed during estimation', b0, b1))
+                break
+            if b0['status'] == 0 and b0['name'] in est:
+                if fr(b1['init']) != Fraction(est[b0['name']]):
+                    out.append(Finding('writeback', f'after estimation the starting value of {b0["name"]} is {h2f(b1["init"])!r}, '
+                                       f'the estimate is {est[b0["name"]]!r}', est[b0['name']], h2f(b1['init'])))
+                    break
+            elif b0['init'] != b1['init']:
+                out.append(Finding('writeback-fixed', f'the fixed parameter {b0["name"]} was modified by the estimation',
+                                   h2f(b0['init']), h2f(b1['init'])))
+                break
+    info['idm_stale'] = [h2f(v) for v in r['idm_after']] != x
+    return out, info
+
+
+def witness(problem, runs, extra=None):
+    def rd(run):
+        d = {k: v for k, v in run.items()}
+        d['readable'] = {'start': {p['name']: h2f(p['init']) for p in run['params']},
+                         'bounds': {p['name']: [h2f(p['lb']), h2f(p['ub'])] for p in run['params'] if not p['fixed']},
+                         'restart_file': None if not run.get('iter_start') else {k: h2f(v) for k, v in run['iter_start'].items()}}
+        return d
+    w = {'problem': problem, 'runs': [rd(r) for r in runs],
+         'spec': {a: ' + '.join((p if c is None else f'{p}*{c}') for p, c in t) or '0' for a, t in problem['alts'].items()}}
+    if extra:
+        w.update(extra)
+    return w
+
+
+def evaluate(ctx, st, problems, runs, results):
+    infos = []
+    nconv = 0
+    per_alg = {}
+    for run, r in zip(runs, results):
+        p = problems[run['pid']]
+        fs, info = check_run(p, run, r)
+        infos.append(info)
+        nconv += bool(info.get('converged'))
+        a = per_alg.setdefault(run['algorithm'], {'runs': 0, 'converged': 0, 'max_relpg': 0.0, 'idm_stale': 0})
+        a['runs'] += 1
+        a['converged'] += bool(info.get('converged'))
+        a['max_relpg'] = max(a['max_relpg'], info.get('relpg', 0.0))
+        a['idm_stale'] += bool(info.get('idm_stale'))
+        if st is not None:
+            st.record({'problem': {'kind': p['kind'], 'rows': len(p['choice']), 'free': p['free'], 'fixed': list(p['fixed']),
+                                   'alts': p['alts']},
+                       'params': run['params'], 'algorithm': run['algorithm'], 'share': run['share'],
+                       'iter_start': run['iter_start'], 'tags': run['tags']},
+                      nontrivial=bool(info.get('converged')) and bool(info.get('moved')))
+        for f in fs[:2]:
+            ctx.violation(f'C07/estimate/{f.clause}/{run["algorithm"]}', f.what, witness(p, [run]), f.expected, f.observed, HOW)
+    # --- (6) agreement of the maxima: all converged runs that solve the same problem
+    groups = {}
+    for i, (run, info) in enumerate(zip(runs, infos)):
+        if not info.get('converged') or 'L' not in info:
+            continue
+        bk = run['tags'].get('bounds_kind')
+        g = run['tags'].get('group')
+        # the algorithms that do not receive the bounds solve the unconstrained problem; with no / inactive bounds this is
+        # the same problem (concave L: a stationary point inside the box is the maximum over the box and over R^n)
+        cls = 'all' if bk in ('none', 'inactive') else ('box' if run['algorithm'] in SUPPORTS_BOUNDS else 'free')
+        groups.setdefault((g, cls), []).append(i)
+    worst = 0.0
+    for (g, cls), idxs in groups.items():
+        if len(idxs) < 2:
+            continue
+        lo = min(idxs, key=lambda i: infos[i]['L'])
+        hi = max(idxs, key=lambda i: infos[i]['L'])
+        d = infos[hi]['L'] - infos[lo]['L']
+        rel = d / max(1.0, abs(infos[hi]['L']))
+        worst = max(worst, rel)
+        if rel > 1e-5:
+            p = problems[runs[lo]['pid']]
+            ctx.violation(f'C07/estimate/agreement/{runs[lo]["algorithm"]}-vs-{runs[hi]["algorithm"]}',
+                          f'two converged estimations of the same concave problem disagree on the maximum: {runs[lo]["algorithm"]} reports '
+                          f'{infos[lo]["L"]!r}, {runs[hi]["algorithm"]} reports {infos[hi]["L"]!r} (relative {rel:.3g} > 1e-5)',
+                          witness(p, [runs[lo], runs[hi]]), 'equal maxima (relative 1e-5)',
+                          {'low': {'algorithm': runs[lo]['algorithm'], 'logLike': infos[lo]['L'], 'estimates': infos[lo]['x']},
+                           'high': {'algorithm': runs[hi]['algorithm'], 'logLike': infos[hi]['L'], 'estimates': infos[hi]['x']}}, HOW)
+    return {'converged': nconv, 'per_algorithm': per_alg, 'agreement_groups': sum(1 for v in groups.values() if len(v) >= 2),
+            'max_relative_disagreement': worst}
+
+
+def load_corpus():
+    d = VERIF / 'corpus' / 'C07'
+    out = []
+    if d.is_dir():
+        for f in sorted(d.glob('*.json')):
+            try:
+                out.append(json.loads(f.read_text()))
+            except Exception:
+                pass
+    return out
+
+
+def stream_estimate(ctx, n_problems=None, only=None, name='estimate'):
+    st = ctx.stream(name, 'generated concave problems (binary / 3-alternative logit linear in 1-3 free parameters, optional fixed parameter, '
+                    '30-80 rows of dyadic data, finite maximum checked by a numpy Newton iteration) x bound configurations '
+                    '(none / inactive / active at the optimum / one-sided) x feasible starting points (zero, random, near the optimum, far, '
+                    'on a bound; 12% through a restart file) x shared or per-occurrence Beta objects x EVERY name of optimization.algorithms '
+                    '+ automatic; non-trivial = convergence reported and the estimates differ from the start; distinct by '
+                    '(model, parameters, start, bounds, algorithm)')
+    algorithms = algorithm_names()
+    problems, runs = {}, []
+    if only is not None:
+        for k, w in enumerate(only):
+            pid = f'w{k}'
+            problems[pid] = w['problem']
+            for run in w['runs']:
+                run = {kk: vv for kk, vv in run.items() if kk != 'readable'}
+                run['pid'] = pid
+                run.setdefault('tags', {})
+                run['tags']['group'] = pid + '/' + str(run['tags'].get('bounds_kind'))
+                runs.append(run)
+    else:
+        rng = ctx.sub_rng(name)
+        for k, w in enumerate(load_corpus()):
+            if 'problem' in w and 'runs' in w:
+                pid = f'c{k}'
+                problems[pid] = w['problem']
+                for run in w['runs']:
+                    for a in algorithms:
+                        r2 = {kk: vv for kk, vv in run.items() if kk != 'readable'}
+                        r2.update({'pid': pid, 'algorithm': a})
+                        r2['tags'] = dict(run.get('tags') or {})
+                        r2['tags']['group'] = pid + '/' + str(r2['tags'].get('bounds_kind')) + '/' + json.dumps(r2['params'], sort_keys=True)[:0]
+                        runs.append(r2)
+        npb = n_problems if n_problems is not None else ctx.n(14, 160)
+        gen = {}
+        for k in range(npb):
+            gen[f'p{k}'] = gen_problem(rng)
+        problems.update(gen)
+        runs += gen_runs(rng, gen, algorithms, n_starts=ctx.n(2, 3), bound_kinds=BOUND_KINDS)
+    results = run_impl(ctx, problems, runs)
+    summary = evaluate(ctx, st, problems, runs, results)
+    st.extra.update(summary)
+    st.extra['algorithms'] = algorithms
+    if only is None and runs and summary['converged'] < 0.5 * len(runs) and not ctx.violations:
+        ctx.stream_broken(name, f'only {summary["converged"]} of {len(runs)} estimations report convergence: the generated problems are degenerate')
+    return problems, runs, results
